@@ -435,7 +435,6 @@ Fixpoint B (len : nat) (l : list int) : list Z :=
   | [x] => be_fix len (Uint63.to_Z x)
   | x :: r => be_fix 7 (Uint63.to_Z x) ++ B (len - 7) r
   end.
-Arguments B _%nat _%uint63.
 Definition enc_obytes (o : option (list Z)) : list Z :=
   match o with None => [0] | Some l => 1 :: enc_bytes l end.
 
@@ -502,7 +501,6 @@ Definition stepo (s : cstate) (o : op) : cstate * list Z :=
 (* the implementation's observations arrive as primitive integers *)
 Definition check_case (s : cstate) (steps : list (op * list int)) :=
   @Corr.check cstate op stepo s (map (fun '(o, e) => (o, map Uint63.to_Z e)) steps).
-Arguments check_case _ _%uint63.
 
 (* building worlds from literals *)
 Definition mk_actor (c : code) (d : option addr) (e : option evm_st) : actor :=
